@@ -14,12 +14,17 @@ Renders == [Names -> {"ok", "fail"}]
 AllOk == [n \in Names |-> "ok"]
 PipeVecs == [fam : {"xr"}, mode : {"Pipeline"}, ready : [Names -> Bools], apply : Outcomes, render : {AllOk},
              xr : {"unset", "true", "false"}, conds : CondLists, err : {"none", "fatal"},
-             prior : {"none", "ready", "custom", "both"}, xrReady : {"none"}]
+             prior : {"none", "ready", "custom", "both"}, xrReady : {"none"}, checks : {"default"}]
 PTVecs == [fam : {"xr"}, mode : {"PT"}, ready : [Names -> Bools], apply : Outcomes, render : Renders,
-           xr : {"unset"}, conds : {<<>>}, err : {"none"}, prior : {"none", "ready"}, xrReady : {"none"}]
+           xr : {"unset"}, conds : {<<>>}, err : {"none"}, prior : {"none", "ready"}, xrReady : {"none"},
+           \* how readiness is decided: "default" = no readinessChecks (the Ready condition); otherwise two checks
+           \* (MatchString status.state = available, then MatchCondition Ready=True) of which, for a resource that is
+           \* not ready, the first / the last one fails while the other passes - ready means EVERY check passes
+           \* (added after the seeded change C05-m6, "the last check decides", was missed)
+           checks : {"default", "failfirst", "faillast"}]
 \* claim leg: the bound XR's Ready condition when the claim reconcile runs (and what it was in the reconcile before)
 ClaimVecs == [fam : {"claim"}, mode : {"SSA", "CSA"}, ready : {[n \in Names |-> FALSE]}, apply : {AllOk}, render : {AllOk},
-              xr : {"unset"}, conds : {<<>>}, err : {"none"}, prior : {"none", "ready"}, xrReady : {"True", "False", "Unknown", "absent"}]
+              xr : {"unset"}, conds : {<<>>}, err : {"none"}, prior : {"none", "ready"}, xrReady : {"True", "False", "Unknown", "absent"}, checks : {"default"}]
 Vecs == PipeVecs \cup PTVecs \cup ClaimVecs
 Init == v \in Vecs /\ out = "-"
 Compute == out = "-" /\ out' = "x" /\ UNCHANGED v
